@@ -16,8 +16,8 @@ out = {
         "add_only": True,
     },
     "engines": [
-        {"name": "vcheck", "path": "harness/cmd/vcheck", "serves_properties": [c for c in ids if checks.get(c, {}).get("ready")],
-         "kind_free_text": "Go harness: monitored runtime.Interface host, generators, reference models and oracles; parent process shards a fixed seeded case list over worker processes"},
+        {"name": "vcheck", "path": "harness", "serves_properties": [c for c in ids if checks.get(c, {}).get("ready")],
+         "kind_free_text": "Go harness module (one binary per property group: harness/cmd/vcheck-<group>, see harness/groups.txt): monitored runtime.Interface host, generators, reference models and oracles; parent process shards a fixed seeded case list over worker processes"},
     ],
     "checks": [],
     "not_applicable": [],
